@@ -537,10 +537,10 @@ def agg_case(seed):
     rules.append(Rule('P', [x], body=Conj(pos + [Neg(negd)])))
   elif kind == 'impl':
     rules.append(Rule('P', [x], body=Conj([A('G', x), Impl(A('E', x, y), rnd.choice([A('F', y, x), A('G', y), Cmp('>', y, Num(0))]))])))
-  elif kind == 'argbest' and rnd.random() < 0.4:
-    # ArgMinK / ArgMaxK through the documented wrapper idiom
-    which = rnd.choice(['Min', 'Max'])
-    k = rnd.choice([1, 2, 2, 3])
+  elif kind == 'argbest' and (seed // len(kinds)) % 2 == 1:
+    # ArgMinK / ArgMaxK through the documented wrapper idiom (every other program of this kind)
+    which = ['Min', 'Max'][(seed // (2 * len(kinds))) % 2]
+    k = [2, 3, 2, 1][(seed // (2 * len(kinds))) % 4]
     op = 'Arg%s%d' % (which, k)
     nkeys = rnd.randint(0, 1)
     wrapper = '%s(x) = Arg%sK(x, %d);' % (op, which, k)
